@@ -1,6 +1,7 @@
 package main
 
 import (
+	"go/types"
 	"strings"
 )
 
@@ -511,10 +512,28 @@ func (e *Engine) registerFmtIntrinsics() {
 	// fmt.Errorf without %w is errors.New(Sprintf(...)) (fmt/errors.go); the real errors.New is executed
 	in["fmt.Errorf"] = func(r *Run, fr *frame, a []Value) Value {
 		f := a[0].(StrV).concrete()
-		if strings.Contains(f, "%w") {
-			panic(unsupported("fmt.Errorf with %%w"))
-		}
 		msg := r.sprintf(f, a[1].(SliceV).Data)
+		if n := strings.Count(f, "%w"); n == 1 {
+			// one %w: *fmt.wrapError{msg, err}; its Error and Unwrap methods are the real code
+			wi := 0
+			for i := 0; i+1 < len(f) && !(f[i] == '%' && f[i+1] == 'w'); i++ {
+				if f[i] == '%' {
+					if f[i+1] != '%' {
+						wi++
+					}
+					i++
+				}
+			}
+			wt := r.eng.prog.ImportedPackage("fmt").Type("wrapError")
+			if wt == nil {
+				panic(unsupported("fmt.wrapError not in the program"))
+			}
+			slot := new(Value)
+			*slot = Struct{msg, a[1].(SliceV).Data[wi]}
+			return Iface{T: types.NewPointer(wt.Type()), V: Ptr(slot)}
+		} else if n > 1 {
+			panic(unsupported("fmt.Errorf with several %%w"))
+		}
 		return r.callFunc(fr, r.eng.prog.ImportedPackage("errors").Func("New"), []Value{msg}, nil)
 	}
 }
@@ -547,12 +566,28 @@ func (r *Run) sprintf(f string, args []Value) StrV {
 		}
 		i++
 		switch f[i] {
-		case 's', 'v':
-			v := args[ai].(Iface).V
+		case 's', 'v', 'w':
+			iv := args[ai].(Iface)
+			v := iv.V
 			ai++
 			sv, ok := v.(StrV)
 			if !ok {
-				panic(unsupported("Sprintf %%%c of %T", f[i], v))
+				// an error (or Stringer) operand prints as its Error() / String() text
+				if iv.T != nil {
+					for _, mn := range []string{"Error", "String"} {
+						if r.eng.prog.MethodSets.MethodSet(iv.T).Lookup(nil, mn) != nil {
+							if m := r.eng.prog.LookupMethod(iv.T, nil, mn); m != nil {
+								if res, isStr := r.callFunc(nil, m, []Value{v}, nil).(StrV); isStr {
+									sv, ok = res, true
+								}
+							}
+							break
+						}
+					}
+				}
+				if !ok {
+					panic(unsupported("Sprintf %%%c of %T", f[i], v))
+				}
 			}
 			out = concatStr(out, sv)
 		case 'd':
